@@ -25,6 +25,11 @@ func c03Run(trim bool) {
 	plans := make([]consPlan, nCons)
 	for i := range plans {
 		plans[i] = drawConsPlan(12)
+		if simrt.Chance(1, 3) {
+			for n := simrt.DrawRange(1, 4); n > 0; n-- {
+				plans[i].diffWatch = append(plans[i].diffWatch, drawPause())
+			}
+		}
 	}
 	r.producers(2)
 	if aud != nil {
@@ -193,6 +198,79 @@ func c03Oracle(r *bufRun) bool {
 						return false
 					}
 				}
+			}
+		}
+	}
+	// Diff taken by a second goroutine while the consumer's user works: the read position is the same
+	// before and after a Commit, so only Gets, Rollbacks and Puts overlapping the call widen the bracket
+	for i, k := range r.cons {
+		b := tracks[i].base
+		if b < 0 {
+			continue
+		}
+		for _, w := range k.watch {
+			if !w.known {
+				if k.closeInv == 0 || w.ret < k.closeInv {
+					simrt.Failf("C03.diff-unknown", "Diff reported an open consumer of this buffer as unknown")
+					return false
+				}
+				continue
+			}
+			// read positions (committed + delta) the consumer can have had at some instant of [inv, ret]
+			posLo, posHi := -1, -1
+			note := func(p int) {
+				if posLo < 0 || p < posLo {
+					posLo = p
+				}
+				if p > posHi {
+					posHi = p
+				}
+			}
+			committed, delta := 0, 0
+			var ops []*bufOp
+			for _, op := range k.ops {
+				if op.kind == "get" || op.kind == "commit" || op.kind == "rollback" {
+					ops = append(ops, op)
+				}
+			}
+			// state before the first operation
+			if len(ops) == 0 || ops[0].ret > w.inv {
+				note(0)
+			}
+			for j, op := range ops {
+				switch op.kind {
+				case "get":
+					if op.ok {
+						delta++
+					}
+				case "commit":
+					if op.ok {
+						committed += delta
+						delta = 0
+					}
+				case "rollback":
+					if op.ok {
+						delta = 0
+					}
+				}
+				// the state after op j is current from somewhere in [op.inv, op.ret] until the next op took effect
+				if op.inv < w.ret && (j+1 == len(ops) || ops[j+1].ret > w.inv) {
+					note(committed + delta)
+				}
+			}
+			lo, hi := 0, 0
+			for _, p := range r.puts {
+				if p.ret < w.inv {
+					lo += len(p.vals)
+				}
+				if p.inv < w.ret {
+					hi += len(p.vals)
+				}
+			}
+			if w.n < lo-(b+posHi) || w.n > hi-(b+posLo) {
+				simrt.Failf("C03.diff-value", "consumer %d: a Diff() made by a second goroutine returned %d, but its read position was between %d and %d and between %d and %d values had been put (a concurrent Commit does not move the read position)",
+					k.id, w.n, b+posLo, b+posHi, lo, hi)
+				return false
 			}
 		}
 	}
